@@ -49,6 +49,12 @@ type Engine struct {
 	excludedEmailAddresses  []string
 	permittedURIDomains     []string
 	excludedURIDomains      []string
+
+	// perCert holds one engine per certificate with name constraints. It is
+	// only set if more than one certificate in the chain has them: a name must
+	// then satisfy the constraints of each of those certificates (RFC 5280,
+	// section 6.1.4), and not just the union of all the permitted subtrees.
+	perCert []*Engine
 }
 
 // New creates a constraint validation engine that contains the given chain of
@@ -71,6 +77,18 @@ func New(chain ...*x509.Certificate) *Engine {
 		len(e.permittedEmailAddresses) > 0 || len(e.excludedEmailAddresses) > 0 ||
 		len(e.permittedURIDomains) > 0 || len(e.excludedURIDomains) > 0
 
+	if len(chain) > 1 {
+		var constrained []*Engine
+		for _, crt := range chain {
+			if c := New(crt); c.hasNameConstraints {
+				constrained = append(constrained, c)
+			}
+		}
+		if len(constrained) > 1 {
+			e.perCert = constrained
+		}
+	}
+
 	return e
 }
 
@@ -78,6 +96,17 @@ func New(chain ...*x509.Certificate) *Engine {
 // service.
 func (e *Engine) Validate(dnsNames []string, ipAddresses []net.IP, emailAddresses []string, uris []*url.URL) error {
 	if e == nil || !e.hasNameConstraints {
+		return nil
+	}
+
+	// With constraints on more than one certificate, the names must be valid
+	// for each one of them.
+	if len(e.perCert) > 0 {
+		for _, c := range e.perCert {
+			if err := c.Validate(dnsNames, ipAddresses, emailAddresses, uris); err != nil {
+				return err
+			}
+		}
 		return nil
 	}
 
